@@ -48,7 +48,8 @@ package errutil
 //@   ensures err != nil ==> typeis(result, *withPrefix) && result.(*withPrefix).cause == err && result.(*withPrefix).prefix == rSprint1(safeV(ifaceOf(message)))
 
 //@ func WithMessagef
-//@   props C10 C07
+//@   props C10 C07 C03
+//@   requires[C03] safeS(format)
 //@   ensures err == nil ==> result == nil
 //@   ensures err != nil ==> typeis(result, *withPrefix) && result.(*withPrefix).cause == err
 
@@ -115,10 +116,17 @@ package errutil
 //@   ensures[C16] $cap == lvl - 1
 
 //@ func NewWithDepthf
-//@   props C10 C16
+//@   props C10 C16 C03 C07
+//@   requires[C03] safeS(format)
 //@   ensures result != nil
 //@   ensures[C16] $cap == lvl - 1 - depth
+// C07 / C10: only the error consumed by %w becomes the cause; other error operands are attached as
+// secondary errors (invisible to cause analysis)
+//@   ensures[C07,C10] hfeErr(format, args) != nil ==> rootOf(result) == rootOf(hfeErr(format, args))
+//@   ensures[C07,C10] hfeErr(format, args) == nil ==> typeis(rootOf(result), *leafError) && rootOf(result).(*leafError).msg == hfeMsg(format, args)
 //@   loop 2: invariant err != nil
+//@           invariant[C07,C10] hfeErr(format, args) != nil ==> rootOf(err) == rootOf(hfeErr(format, args))
+//@           invariant[C07,C10] hfeErr(format, args) == nil ==> typeis(rootOf(err), *leafError) && rootOf(err).(*leafError).msg == hfeMsg(format, args)
 
 //@ func Wrap
 //@   props C10 C16
